@@ -188,6 +188,22 @@ def run(res, tier, seed, driver_ok):
         if rel(W.getMoment(), np.cross(p, f)) > tol or rel(W.getForce(), f) > tol:
             bad('moment', 'moment of a force at p is not p x f', {'f': list(f), 'p': list(p)}, W.getData().reshape(-1).tolist())
         lines.append('scr.wrenchat %s %s' % (tmh.H(f), tmh.H(p))); expect.append((W.getData().reshape(-1), None, 'x', 0.0))
+        # the same with whole-number forces handed over in every form a caller would write them: int array, list of Python ints, int magnitude * direction
+        fi = np.array([rnd.randint(-9, 9) for _ in range(3)])
+        if np.any(fi != 0):
+            pt_ = tm([p[0], p[1], p[2], 0, 0, 0])
+            forms_ = [('int-array', lambda: Wrench(fi.copy(), pt_, A.copy())), ('int-list', lambda: Wrench([int(x) for x in fi], pt_, A.copy()))]
+            k_ = int(np.argmax(np.abs(fi)))
+            dirn_ = [0, 0, 0]; dirn_[k_] = 1 if fi[k_] > 0 else -1
+            forms_.append(('makeWrench-int', lambda: fsr.makeWrench(pt_, int(abs(fi[k_])), dirn_, A.copy())))
+            for nm_, mk_ in forms_:
+                try:
+                    Wi = mk_()
+                except Exception as e:
+                    bad('raises:force-at-point:%s' % nm_, 'building a wrench from a whole-number force raised %r' % (e,), {'f': fi.tolist(), 'p': list(p)}, None); continue
+                fw = np.array(dirn_, dtype=float) * abs(fi[k_]) if nm_ == 'makeWrench-int' else fi.astype(float)
+                if rel(Wi.getMoment(), np.cross(p, fw)) > tol or rel(Wi.getForce(), fw) > tol:
+                    bad('moment:%s' % nm_, 'moment of a force at p is not p x f', {'f': fw.tolist(), 'p': list(p), 'form': nm_}, Wi.getData().reshape(-1).tolist())
         atp = tm(A.gTM() @ Tof(np.concatenate([p, np.zeros(3)])))        # frame at the point of application, same orientation
         W.changeFrame(atp)
         if G.gt(np.max(np.abs(W.getMoment())), tol * max(1.0, np.linalg.norm(f) * max(1.0, np.linalg.norm(p)))):
